@@ -29,8 +29,10 @@ ANCHOR_FILES = [
 RULE = (
     "seeded cases over scan 2..7 x 2..7, detector 4..20 x 4..20, input dtype, detector mask kind, CoM surface "
     "(random / exact plane / exact constant), fit function, entry point (preprocess / direct), plus direct fit cases "
-    "(exact float64 planes, explicit probe positions) and integer-origin shift cases (3 interpolation modes, all batch sizes); "
-    "non-trivial = non-square detector and mean |CoM_row - CoM_col| > 0.5 px (com), non-square scan with distinct non-zero "
+    "(exact float64 planes, explicit probe positions), integer-origin shift cases (3 interpolation modes, all batch sizes) and random "
+    "histories of 4..10 public calls on ONE model object (calculate/fit/estimate_detector_rotation/shift/forward; preprocess/forward/reset/reads) "
+    "audited after every call against snapshots, the float64 oracle and a fresh twin; "
+    "non-trivial = non-square detector and mean |CoM_row - CoM_col| > 0.5 px (com), >= 3 calls of which >= 2 beyond the first measurement (history), non-square scan with distinct non-zero "
     "slopes (fit), non-square detector with row != column origins (shift); distinct = (kind, scan, detector, dtype, mask, surface, fit, entry/mode)"
 )
 ASSUMPTIONS = [
@@ -43,6 +45,8 @@ ASSUMPTIONS = [
 BUDGET = {"quick": {"soft_s": 100}, "thorough": {"soft_s": 500}}
 MIN_EVALUATIONS = {"quick": 1000, "thorough": 20000}
 REQUIRED_COUNTERS = [
+    "eval:state_preserved",
+    "eval:history_vs_fresh_twin",
     "eval:com_vs_oracle",
     "eval:vectorized_vs_looped",
     "eval:batch_invariance",
@@ -58,6 +62,7 @@ TOL_PATH = 1e-3  # px, two float32 evaluations of the same mean (measured: 0 bet
 TOL_BATCH = 2e-5  # px / relative, same code with a different batch shape (measured: bitwise equal)
 TOL_FIT = 1e-2  # px, fitted surface vs the exact surface it was fitted to (float32 PCA / float32 storage; measured floor 4.6e-5)
 TOL_FIT64 = 1e-6  # px, fit_origin on exact float64 planes (least squares in float64)
+TOL_STATE = 1e-5  # px / relative: an attribute re-read (or recomputed by the same call) later on the same object (measured: bitwise equal)
 TOL_ROLL = 5e-4  # relative to max|pattern| (float32 grid un-normalisation in grid_sample; measured floor 9e-7; an off-by-one roll is O(1))
 
 DTYPES = ["float32", "float32", "float64", "uint16", "int32"]
@@ -108,6 +113,10 @@ def plan(tier, seed):
         specs.append({"kind": "fit", "scan": scan, "surface": ["plane", "plane", "constant"][k % 3], "positions": ["grid", "explicit"][int(rng.integers(2))]})
     for scan, hx in FIT_WITNESSES:
         specs.append({"kind": "fit", "scan": scan, "surface": "constant", "positions": "grid", "value_hex": hx})
+    n_hist = 360 if tier == "quick" else 15000
+    for k in range(n_hist):
+        surface = SURFACES[int(rng.integers(len(SURFACES)))]
+        specs.append({"kind": "history", "impl": ["origin_model", "origin_model", "dataset"][k % 3], "scan": _shape(rng, 3, 7, False), "det": _shape(rng, 4, 20, rng.random() < 0.8), "dtype": ["float32", "float64"][int(rng.integers(2))], "surface": surface, "first": ["steps", "forward_default", "steps"][int(rng.integers(3))]})
     for k in range(n_shift):
         scan = _shape(rng, 1, 6, False)
         det = _shape(rng, 4, 20, rng.random() < 0.8)
@@ -470,9 +479,181 @@ def _run_shift(spec, idx, ctx):
     ctx.observe(n=n, origins=org[:4], route=route, mode=mode)
 
 
+# ------------------------------------------------------------------------------------------------
+# histories on one model object: every attribute the property names is snapshotted when first judged and must be
+# unchanged (or recomputed to the same value) after later public calls that do not claim to change it; after any
+# history the object must agree with a fresh twin that only ran calculate -> fit -> shift with the same arguments.
+
+
+def _np(t):
+    return None if t is None else np.array(t.detach().cpu().numpy() if hasattr(t, "detach") else t, dtype=np.float64, copy=True)
+
+
+def _history_origin_model(spec, idx, ctx, rng, A, orr, occ):
+    COM, D4 = ctx.state["COM"], ctx.state["D4"]
+    (nr, nc), (H, W) = spec["scan"], spec["det"]
+    n = nr * nc
+    A32 = A.astype(np.float32)
+    m = COM.from_dataset(D4.from_array(A.copy()))
+    oracle = np.stack([orr.ravel(), occ.ravel()], 1)
+    state = {"measured": None, "fit_method": None, "fitted": None, "shift_args": None, "shifted": None}
+    twins = {}
+
+    def twin(fit_method, mode=None):
+        key = (fit_method, mode)
+        if key not in twins:
+            t = COM.from_dataset(D4.from_array(A.copy()))
+            t.calculate_origin(None)
+            t.fit_origin_background(fit_method=fit_method)
+            if mode is not None:
+                t.shift_origin_to((0, 0), None, mode)
+            twins[key] = (_np(t.origin_fitted), _np(t.shifted_tensor))
+        return twins[key]
+
+    def audit(after):
+        f = dict(impl="origin_model", after=after)
+        ctx.check(np.array_equal(_np(m.tensor), A32.astype(np.float64)), "state_preserved", "the model's tensor changed after %s" % after, attr="tensor", **f)
+        om = _np(m.origin_measured)
+        if state["measured"] is not None:
+            ctx.close(_maxabs(om - state["measured"]), TOL_STATE, "state_preserved", lambda: "origin_measured read after %s differs from the value judged after calculate_origin" % after, attr="origin_measured", **f)
+            _judge_com(ctx, om[:, 0].reshape(nr, nc), om[:, 1].reshape(nr, nc), orr, occ, TOL_COM, impl="origin_model", path="history", entry=after, masked=False, batch="history")
+        if state["fitted"] is not None:
+            of = _np(m.origin_fitted)
+            ctx.close(_maxabs(of - state["fitted"]), TOL_STATE, "state_preserved", lambda: "origin_fitted read after %s differs from the value of the last fit_origin_background(%s)" % (after, state["fit_method"]), attr="origin_fitted", **f)
+            ctx.close(_maxabs(of - twin(state["fit_method"])[0]), TOL_STATE, "history_vs_fresh_twin", lambda: "origin_fitted after the history (last op %s) differs from a fresh model that ran calculate_origin -> fit_origin_background(%s)" % (after, state["fit_method"]), attr="origin_fitted", **f)
+        if state["shifted"] is not None:
+            sh = _np(m.shifted_tensor)
+            scale = _maxabs(state["shifted"]) or 1.0
+            ctx.close(_maxabs(sh - state["shifted"]) / scale, TOL_STATE, "state_preserved", lambda: "shifted_tensor read after %s differs from the result of the last shift_origin_to" % after, attr="shifted_tensor", **f)
+            fm, mode = state["shift_args"]
+            ctx.close(_maxabs(sh - twin(fm, mode)[1]) / scale, TOL_STATE, "history_vs_fresh_twin", lambda: "shifted_tensor after the history (last op %s) differs from a fresh model that ran calculate -> fit(%s) -> shift(%s)" % (after, fm, mode), attr="shifted_tensor", **f)
+
+    ops = []
+    length = int(rng.integers(5, 10))
+    for step in range(length):
+        avail = ["calc"]
+        if state["measured"] is not None:
+            avail += ["fit", "fit", "forward"]
+        if state["fitted"] is not None:
+            avail += ["rot", "rot", "shift", "shift"]
+        if step == 0:
+            op = "forward" if spec["first"] == "forward_default" else "calc"
+        else:
+            op = avail[int(rng.integers(len(avail)))]
+        b = [None, int(rng.integers(1, n + 1))][int(rng.integers(2))]
+        if op == "calc":
+            m.calculate_origin(b)
+            state["measured"] = _np(m.origin_measured) if state["measured"] is None else state["measured"]
+            ops.append("calculate_origin(%r)" % b)
+        elif op == "fit":
+            fm = ["plane", "constant"][int(rng.integers(2))]
+            m.fit_origin_background(fit_method=fm)
+            state["fit_method"], state["fitted"] = fm, _np(m.origin_fitted)
+            ops.append("fit_origin_background(%s)" % fm)
+        elif op == "rot":
+            if rng.random() < 0.5:
+                m.estimate_detector_rotation()
+            else:
+                m.estimate_detector_rotation(np.linspace(-60, 60, 9).astype(np.float32))
+            ops.append("estimate_detector_rotation")
+        elif op == "shift":
+            mode = MODES[int(rng.integers(len(MODES)))]
+            m.shift_origin_to((0, 0), b, mode)
+            state["shifted"], state["shift_args"] = _np(m.shifted_tensor), (state["fit_method"], mode)
+            ops.append("shift_origin_to(%s,%r)" % (mode, b))
+        else:
+            if step == 0 and spec["first"] == "forward_default":
+                m.forward()
+                fm, mode = "plane", "bilinear"
+                ops.append("forward()")
+            else:
+                fm, mode = ["plane", "constant"][int(rng.integers(2))], MODES[int(rng.integers(len(MODES)))]
+                m.forward(max_batch_size=b, fit_method=fm, estimate_detector_orientation=bool(rng.random() < 0.7), mode=mode)
+                ops.append("forward(%r,%s,%s)" % (b, fm, mode))
+            if state["measured"] is None:
+                state["measured"] = _np(m.origin_measured)
+            state["fit_method"], state["fitted"] = fm, _np(m.origin_fitted)
+            state["shifted"], state["shift_args"] = _np(m.shifted_tensor), (fm, mode)
+        audit(ops[-1].split("(")[0])
+    return ops
+
+
+def _history_dataset(spec, idx, ctx, rng, A, orr, occ):
+    (nr, nc), (H, W) = spec["scan"], spec["det"]
+    n = nr * nc
+    A32 = A.astype(np.float32)
+    ds = _new_dataset(ctx, A)
+    fit = ["plane", "constant", "none", "parabola"][int(rng.integers(4))]
+    snap = {}
+    ops = []
+
+    def pre(first):
+        kw = dict(com_fit_function=fit, plot_rotation=False, plot_com=False, vectorized=bool(rng.random() < 0.6))
+        if first:
+            kw["probe_energy"] = 80e3
+        # rotation / transpose only steer the scan positions, not the centres of mass. They are always forced and the
+        # transpose is left off: preprocess(force_com_rotation=0.0, force_com_transpose=True) (also reachable through the
+        # automatic estimate) raises ValueError "negative strides" in _set_initial_scan_positions_px (np.flip view handed to
+        # torch.tensor) - a defect outside this property, reported to the coordinator, not judged here.
+        kw.update(force_com_rotation=float(rng.choice([0.0, rng.uniform(-1, 1)])), force_com_transpose=False)
+        if rng.random() < 0.5:
+            kw.update(bilinear=True)
+        if rng.random() < 0.4:
+            kw.update(obj_padding_px=(int(rng.integers(0, 4)), int(rng.integers(0, 4))))
+        ds.preprocess(**kw)
+        ops.append("preprocess(vectorized=%s)" % kw["vectorized"])
+
+    def audit(after):
+        f = dict(impl="dataset", after=after)
+        cm, cf = _np(ds.com_measured), _np(ds.com_fit)
+        ctx.check(np.array_equal(np.asarray(ds.intensities_4d), A32), "state_preserved", "intensities_4d changed after %s" % after, attr="intensities_4d", **f)
+        if "cm" not in snap:
+            snap["cm"], snap["cf"] = cm, cf
+        ctx.close(_maxabs(cm - snap["cm"]), TOL_STATE, "state_preserved", lambda: "com_measured read after %s differs from the value judged after the first preprocess" % after, attr="com_measured", **f)
+        ctx.close(_maxabs(cf - snap["cf"]), TOL_STATE, "state_preserved", lambda: "com_fit read after %s differs from the value of the first preprocess (same fit function %s)" % (after, fit), attr="com_fit", **f)
+        _judge_com(ctx, cm[0], cm[1], orr, occ, TOL_COM, impl="dataset", path="history", entry=after, masked=False)
+
+    pre(True)
+    audit("preprocess")
+    for step in range(int(rng.integers(3, 7))):
+        op = ["com_normalized", "forward", "reset", "preprocess", "read_descan"][int(rng.integers(5))]
+        if op == "com_normalized":
+            v = ds.com_normalized
+            v *= 0.0  # a caller scribbling on the returned array must not reach the stored centres
+        elif op == "forward":
+            k = int(rng.integers(1, n + 1))
+            ds.forward(np.sort(rng.choice(n, size=k, replace=False)), (0, 0))
+        elif op == "reset":
+            ds.reset()
+        elif op == "preprocess":
+            pre(False)
+        else:
+            _ = ds.descan_shifts.detach().numpy().copy()
+        if op != "preprocess":
+            ops.append(op)
+        audit(op)
+    return ops
+
+
+def _run_history(spec, idx, ctx):
+    rng = ctx.rng(idx)
+    (nr, nc), (H, W) = spec["scan"], spec["det"]
+    A = _gen_patterns(rng, nr, nc, H, W, spec["surface"], spec["dtype"])
+    orr, occ = _oracle_com(A.astype(np.float32))
+    if spec["impl"] == "origin_model":
+        ops = _history_origin_model(spec, idx, ctx, rng, A, orr, occ)
+    else:
+        ops = _history_dataset(spec, idx, ctx, rng, A, orr, occ)
+    mutators = sum(1 for o in ops if o.split("(")[0] in ("estimate_detector_rotation", "forward", "shift_origin_to", "fit_origin_background", "reset", "com_normalized", "preprocess"))
+    ctx.nontrivial(("history", spec["impl"], tuple(spec["scan"]), tuple(spec["det"]), spec["surface"], tuple(o.split("(")[0] for o in ops)), H != W and len(ops) >= 3 and mutators >= 2)
+    ctx.observe(impl=spec["impl"], ops=ops)
+
+
 def run_case(spec, idx, ctx):
     with np.errstate(all="ignore"):
-        if spec["kind"] == "com":
+        if spec["kind"] == "history":
+            _run_history(spec, idx, ctx)
+        elif spec["kind"] == "com":
             _run_com(spec, idx, ctx)
         elif spec["kind"] == "fit":
             _run_fit(spec, idx, ctx)
